@@ -820,10 +820,52 @@ def assume(t, c, truth):
                     hi = cand
             bounds[f[2]] = (lo, hi)
 
-    def decided(n):
-        if not bounds or n[0] != "cmp" or n[1] not in ("<", "<=", ">", ">=") or n[2] not in bounds or n[3][0] != "num" or isinstance(n[3][1], bool) or not isinstance(n[3][1], (int, float)):
+    def bounds_of(t):
+        """bounds of t, also through abs(): |x| <= u gives -u <= x <= u; x > c >= 0 gives |x| > c; x < c <= 0 gives |x| > -c"""
+        if t in bounds:
+            return bounds[t]
+        inf = float("inf")
+        def flipped(x):
+            """b - a for a - b (abs() keeps one canonical orientation of a difference)"""
+            if x[0] == "op" and x[1] == "+" and len(x[2]) == 2 and sum(1 for y in x[2] if y[0] == "neg") == 1:
+                pos = [y for y in x[2] if y[0] != "neg"][0]
+                ng = [y for y in x[2] if y[0] == "neg"][0][1]
+                for cand in (("op", "+", (ng, ("neg", pos))), ("op", "+", (("neg", pos), ng))):
+                    if cand in bounds:
+                        return cand
             return None
-        (lo, lo_strict), (hi, hi_strict) = bounds[n[2]]
+        if t[0] == "call" and t[1] in ("abs", "builtins.abs") and len(t[2]) == 1 and t[2][0] not in bounds and flipped(t[2][0]) is not None:
+            (lo, ls), (hi, hs) = bounds[flipped(t[2][0])]
+            lo, ls, hi, hs = -hi, hs, -lo, ls           # bounds of the negated difference
+            inf = float("inf")
+            if lo >= 0:
+                return (lo, ls), ((hi, hs) if hi != inf else (inf, False))
+            if hi <= 0:
+                return (-hi, hs), ((-lo, ls) if lo != -inf else (inf, False))
+            if lo != -inf and hi != inf:
+                return (0.0, False), (max(-lo, hi), False)
+            return None
+        if t[0] == "call" and t[1] in ("abs", "builtins.abs") and len(t[2]) == 1 and t[2][0] in bounds:
+            (lo, ls), (hi, hs) = bounds[t[2][0]]
+            if lo >= 0:
+                return (lo, ls), ((hi, hs) if hi != inf else (inf, False))
+            if hi <= 0:
+                return (-hi, hs), ((-lo, ls) if lo != -inf else (inf, False))
+            if lo != -inf and hi != inf:
+                return (0.0, False), (max(-lo, hi), False)
+            return None
+        for k, ((lo, ls), (hi, hs)) in bounds.items():
+            if k[0] == "call" and k[1] in ("abs", "builtins.abs") and len(k[2]) == 1 and k[2][0] == t and hi != inf:
+                return (-hi, hs), (hi, hs)
+        return None
+
+    def decided(n):
+        if not bounds or n[0] != "cmp" or n[1] not in ("<", "<=", ">", ">=") or n[3][0] != "num" or isinstance(n[3][1], bool) or not isinstance(n[3][1], (int, float)):
+            return None
+        bb = bounds_of(n[2])
+        if bb is None:
+            return None
+        (lo, lo_strict), (hi, hi_strict) = bb
         c, op = n[3][1], n[1]
         if op in (">", ">="):
             if lo > c or (lo == c and (lo_strict or op == ">=")):
